@@ -12,26 +12,34 @@
 #ifndef VF_MON_LOCK_POST
 #define VF_MON_LOCK_POST 1
 #endif
+#ifndef VF_MON_CLOCK
+#define VF_MON_CLOCK vf_mon_clock /* a unit may share one clock with env/spinlock.h: #define VF_MON_CLOCK vf_clock */
+#endif
+#ifndef VF_MON_HAVOC
+#define VF_MON_HAVOC vf_mon_dummy
+#endif
+#ifndef VF_MON_INV
+#define VF_MON_INV 1
+#endif
 #ifndef VF_MON_ENV
 #define VF_MON_ENV 1 /* extra facts assumed (never asserted) about the protected state, e.g. counter bounds (A9) */
 #endif
+int vf_mon_dummy;
 int vf_mon_held;
 int vf_mon_waited; /* a cond_wait happened since the harness cleared it */
 const void *vf_mon_mutex;
 unsigned vf_mon_locks, vf_mon_unlocks, vf_mon_cwaits, vf_mon_bcasts, vf_mon_clock, vf_t_mon_bcast, vf_t_mon_unlock, vf_t_mon_lock;
-#define VF_MON_GHOST vf_mon_held, vf_mon_waited, vf_mon_mutex, vf_mon_locks, vf_mon_unlocks, vf_mon_cwaits, vf_mon_bcasts, vf_mon_clock, vf_t_mon_bcast, vf_t_mon_unlock, vf_t_mon_lock
+#define VF_MON_GHOST vf_mon_held, vf_mon_waited, vf_mon_mutex, vf_mon_locks, vf_mon_unlocks, vf_mon_cwaits, vf_mon_bcasts, VF_MON_CLOCK, vf_t_mon_bcast, vf_t_mon_unlock, vf_t_mon_lock
 
 static inline void ABTI_mutex_lock(ABTI_local **pp_local, ABTI_mutex *p_mutex)
 __CPROVER_requires(vf_mon_held == 0)
-__CPROVER_assigns(*pp_local, VF_MON_GHOST, VF_MON_HAVOC
+__CPROVER_assigns(*pp_local, vf_mon_held, vf_mon_mutex, vf_mon_locks, VF_MON_CLOCK, vf_t_mon_lock, VF_MON_HAVOC
 #ifdef VF_MON_LOCK_GHOST
                   , VF_MON_LOCK_GHOST
 #endif
                   )
 __CPROVER_ensures(vf_mon_held == 1 && vf_mon_mutex == p_mutex && vf_mon_locks == __CPROVER_old(vf_mon_locks) + 1)
-__CPROVER_ensures(vf_mon_unlocks == __CPROVER_old(vf_mon_unlocks) && vf_mon_cwaits == __CPROVER_old(vf_mon_cwaits) && vf_mon_bcasts == __CPROVER_old(vf_mon_bcasts))
-__CPROVER_ensures(vf_mon_clock == __CPROVER_old(vf_mon_clock) + 1 && vf_t_mon_lock == vf_mon_clock)
-__CPROVER_ensures(vf_mon_waited == __CPROVER_old(vf_mon_waited))
+__CPROVER_ensures(VF_MON_CLOCK == __CPROVER_old(VF_MON_CLOCK) + 1 && vf_t_mon_lock == VF_MON_CLOCK)
 __CPROVER_ensures(VF_MON_INV)
 __CPROVER_ensures(VF_MON_ENV)
 __CPROVER_ensures(VF_MON_LOCK_POST);
@@ -39,10 +47,11 @@ __CPROVER_ensures(VF_MON_LOCK_POST);
 static inline void ABTI_mutex_unlock(ABTI_local *p_local, ABTI_mutex *p_mutex)
 __CPROVER_requires(vf_mon_held == 1 && vf_mon_mutex == p_mutex)
 __CPROVER_requires(VF_MON_INV) /* the invariant is re-established at every release */
-__CPROVER_assigns(vf_mon_held, vf_mon_unlocks, vf_mon_clock, vf_t_mon_unlock)
+__CPROVER_assigns(vf_mon_held, vf_mon_unlocks, VF_MON_CLOCK, vf_t_mon_unlock)
 __CPROVER_ensures(vf_mon_held == 0 && vf_mon_unlocks == __CPROVER_old(vf_mon_unlocks) + 1)
-__CPROVER_ensures(vf_mon_clock == __CPROVER_old(vf_mon_clock) + 1 && vf_t_mon_unlock == vf_mon_clock);
+__CPROVER_ensures(VF_MON_CLOCK == __CPROVER_old(VF_MON_CLOCK) + 1 && vf_t_mon_unlock == VF_MON_CLOCK);
 
+#ifndef VF_MON_NO_COND
 static inline int ABTI_cond_wait(ABTI_local **pp_local, ABTI_cond *p_cond, ABTI_mutex *p_mutex)
 __CPROVER_requires(vf_mon_held == 1 && vf_mon_mutex == p_mutex)
 __CPROVER_requires(VF_MON_INV) /* the mutex is released while waiting */
@@ -54,7 +63,8 @@ __CPROVER_ensures(VF_MON_ENV);
 
 static inline void ABTI_cond_broadcast(ABTI_local *p_local, ABTI_cond *p_cond)
 __CPROVER_requires(vf_mon_held == 1) /* broadcast issued under the monitor mutex */
-__CPROVER_assigns(vf_mon_bcasts, vf_mon_clock, vf_t_mon_bcast)
+__CPROVER_assigns(vf_mon_bcasts, VF_MON_CLOCK, vf_t_mon_bcast)
 __CPROVER_ensures(vf_mon_bcasts == __CPROVER_old(vf_mon_bcasts) + 1)
-__CPROVER_ensures(vf_mon_clock == __CPROVER_old(vf_mon_clock) + 1 && vf_t_mon_bcast == vf_mon_clock);
+__CPROVER_ensures(VF_MON_CLOCK == __CPROVER_old(VF_MON_CLOCK) + 1 && vf_t_mon_bcast == VF_MON_CLOCK);
+#endif /* VF_MON_NO_COND */
 #endif
